@@ -28,7 +28,7 @@ def run(tier, replay):
     work = V.scratch()
     bins = V.build(["dbt"], work)
     nontrivial = set()
-    modes = [("txn", c.seed * 1000 + i, [25, 40] if tier == "quick" else [80, 60]) for i in range(1 if tier == "quick" else 5)]
+    modes = [("txn", c.seed * 1000 + i, [25, 40] if tier == "quick" else [30, 50]) for i in range(1 if tier == "quick" else 8)]   # snapshot re-dumps make a run quadratic in its length: many medium runs
     dbtrace.CLASSES["C03"] = ("snapshot:", "visibility:", "txn-result:", "txn-state:", "result:", "state:", "events:", "failed-write-changed-state:", "index-content:", "structure:")
     dbtrace.run_modes(c, "C03", bins, work, modes, nontrivial)
     d = os.path.join(work, "mc")
